@@ -218,6 +218,41 @@ def tlc_generated_tm_cases(tier):
     return cases, len(rows)
 
 
+STORE_TITLES = {
+    "none": {1: "alpha", 2: "beta", 3: "alpha beta"}, "en": {1: "metal", 2: "mailbox", 3: "metal mailbox"},
+    "de": {1: "Straße", 2: "Größe", 3: "Straße Größe"}, "fr": {1: "café", 2: "œuf", 3: "café œuf"},
+    "es": {1: "niño", 2: "árbol", 3: "niño árbol"}, "pt": {1: "pão", 2: "maçã", 3: "pão maçã"},
+    "ru": {1: "ёлка", 2: "мёд", 3: "ёлка мёд"},
+}
+
+
+def tlc_generated_store_cases(tier):
+    """all histories of the bounded Store machine's operation alphabet (GEN_Store.tla), concretised per language"""
+    rows = tlc_generate("GEN_Store", "GEN_Store_q.cfg" if tier == "quick" else "GEN_Store_t.cfg", "gen_store_" + tier)
+    cases = []
+    for k, row in enumerate(rows):
+        lang = gen.LANGS[k % len(gen.LANGS)]
+        T = STORE_TITLES[lang]
+        Q = {0: "", 1: T[1][:2], 2: T[2] + " " + T[1][:2]}
+        c = gen.Case("C10", "tlc-history", lang=lang)
+        sid = c.new_store(lang, markers=None)
+        nid = 1
+        for op in row["ops"]:
+            if op["op"] == "add":
+                c.add(sid, nid, T[op["t"]], op["rating"])
+                nid += 1
+            elif op["op"] == "clear":
+                c.op(op="clear", sid=sid)
+            elif op["op"] == "limit":
+                c.op(op="limit", sid=sid, limit=op["n"])
+            elif op["op"] == "markers":
+                c.op(op="markers", sid=sid, l=gen.SENT_L, r=gen.SENT_R)
+            else:
+                c.search(sid, Q[op["q"]], want=["qtok", "fresh"], repeat=2)
+        cases.append(c)
+    return cases, len(rows)
+
+
 # ------------------------------------------------------------------------------------------------ verdict
 def load_known():
     if os.path.exists(KNOWN):
@@ -472,6 +507,12 @@ def run_property(prop, tier, seed):
     pools, toks = build_pools(ck, tier, rnd)
     cases = cases_for(prop, tier, seed, pools, toks, ck)
     merged = run_cases(prop, cases, ck, sh, stage_budget=sizes(tier, 200, 4000))
+    if prop in ("C10", "C12"):
+        # specification -> implementation: every history of the bounded Store machine, replayed on a real Store
+        gc, n = tlc_generated_store_cases(tier)
+        m2 = run_cases(prop + "g", gc, ck, None, spec="TV_Store")
+        m2["tlc_generated_cases"] = n
+        merge_into(merged, m2)
     if prop in ("C01", "C05", "C09"):
         # specification -> implementation: literal texts enumerated by TLC from the bounded model, run through the real
         # text_match / score / highlight and compared field by field with the specification (TV_Comp)
